@@ -8,22 +8,21 @@ META = {
                   "invariant over all histories, lifted to what a close + reload shows; go/ast fact tie (encoding/gob on a struct "
                   "with pointer fields and no type tag); correspondence with the real gateway through forced closes (Swamp.Close, "
                   "graceful stop + restart, idle eviction) and re-summon"),
-    "text": ("Statement Hv.C05.Holds: for every persistent kind (write interval 0 and > 0) and every multi-session history (requests "
-             "interleaved with closes), one more close + reload shows the same view. Proved against it: not_holds_gob (a typed zero "
-             "reloads as 'no value'), not_holds_incfail (incFailClean = no: a failed conditional Increment on a reloaded record shows "
-             "metadata the next close loses), not_holds_resurrect (any facts: delete / re-create / delete of a filed key within a "
-             "session brings the old record back) — classify lists exactly the findings these cover. Proved for it, on the "
-             "single-session write-interval>0 fragment (single_of_holds: implied by Holds): reload_view (for ANY facts the view after "
-             "close + reload is every record passed once through LoadFromByte∘ConvertToByte; invariant DOK), single_typeTagged, "
-             "persistRecord_id_iff (gob is the identity exactly on values that are not zero-like; metadata always survives), "
-             "zero_table, C05_partial (histories without quirk tags and without zero-like values)."),
-    "note": ("Trusted: Lean kernel (propext, Classical.choice, Quot.sound); extract/c05.go; harness/c05.go + c06.go. The POSITIVE "
-             "direction is proved for one session on a write-interval>0 swamp only; over several sessions, on the write-inside-Save "
-             "path (interval 0), under the 1 s write ticker (kind p1t) and through CompactSwamp it is TESTED by the correspondence "
-             "run (classify never answers 'holds': the delete path of the model is not governed by an extracted fact yet). The file "
-             "format itself is C01. encoding/gob's zero omission is modelled (validated by the 28-value table case on both write "
-             "paths), not verified. Keys: the theorems are about keys the file format can hold (non-empty, < 64 KiB); for the others "
-             "the driver, not the Lean model, reproduces the loss (finding unstorable-key-acknowledged)."),
+    "text": ("Verdict over Hv.C05.Full = HoldsSingle ∧ FailKeepsRecs ∧ RecreateStaysFiled, each clause proved in BOTH directions from its "
+             "fact: single_typeTagged / not_single_gob (encoding; reload_view: for ANY facts the view after close + reload of a session on "
+             "a buffered swamp is every record passed once through LoadFromByte∘ConvertToByte, invariant DOK; persistRecord_id_iff: gob is "
+             "the identity exactly on values that are not zero-like), fail_keeps_recs / not_fail_keeps_recs (incFailClean: a conditional "
+             "Increment that answers 'not incremented' leaves the records alone), recreate_stays_filed / not_recreate_stays_filed "
+             "(recreateKeepsPointer: a record re-created while its delete is queued keeps the file pointer, so the next delete reaches "
+             "the writer). History level, Hv.C05.Holds (every persistent kind, requests interleaved with closes): refuted by "
+             "not_holds_gob / not_holds_incfail / not_holds_resurrect whenever a clause fails (findings_backed), for symbolic facts; "
+             "C05_partial: single-session histories without quirk tags and without zero-like values; zero_table."),
+    "note": ("Trusted: Lean kernel (propext, Classical.choice, Quot.sound); extract/c05.go + c06.go; harness/c05.go + c06.go. 'holds' means: the "
+             "single-session theorem and the absence of the two known multi-session loss mechanisms are PROVED; that Holds itself (several "
+             "sessions, write interval 0, the 1 s write ticker of kind p1t, CompactSwamp) then follows is TESTED by the correspondence run and "
+             "the independent reference, not proved. Keys the file cannot hold are refused by the gateway (fact keyChecked, modelled: "
+             "InvalidArgument before anything is created). The file format itself is C01. encoding/gob's zero omission is modelled "
+             "(validated by the 28-value table case on both write paths), not verified."),
     "design_ref": "§8 C05",
 }
 
